@@ -583,3 +583,77 @@ class MargIcdf(Contract):
                   "n = max(int(100 precision_factor / min(p_min, 1 - p_max)), 100000)")
         want = itp.lib.quantile_term(cx, n, lambda idx: sample.get((idx[0], dim)), self.p.get((k,)))
         cx.oblige("post.marginal_icdf_mc.quantile_of_column_dim", T.eq(r.get((k,)), want) if isinstance(r, SArr) else False, "post", "empirical quantile of the sampled column of variable `dim`")
+
+
+@contract(GHM + ".draw_sample", ["C07"], [dict(rs=r) for r in ("seed", "generator")], name="ghm.draw_sample.any_n_dim")
+class GhmDrawSym(Contract):
+    """the sampling clause for a SYMBOLIC number of variables and an arbitrary admissible conditional_on: loop
+    invariant through an arbitrary fixed cell (k0, j0) - once column j0 is drawn it is the (conditional) quantile of
+    uniform k0 of block j0 of ONE generator given samples[k0, conditional_on[j0]], and it is never written again;
+    the generator state after i dimensions is the i-fold successor of the initial state"""
+
+    def case_label(self, case):
+        return f"random_state={case['rs']}"
+
+    def setup(self, itp, case):
+        me = self
+        ST = T.uf("gen_state_after", "int", "int")  # state after i dimensions
+        me.ST = ST
+
+        def havoc(itp_, env):
+            rs = env.lookup("random_state")
+            if isinstance(rs, RngVal):
+                rs.state = itp_.cx.fresh("h_state", "int")
+            return {"random_state"}
+
+        def inv(itp_, env, kc):
+            cx = itp_.cx
+            samples = env.lookup("samples")
+            rs = env.lookup("random_state")
+            me.samples = samples
+            sg = samples.getter()
+            k0, j0 = cx.sym("k0", "int"), cx.sym("j0", "int")
+            cond = me.cond
+            u = _DRAW(ST(j0), k0)
+            clause = z3.If(cond.is_none(j0), T.zr(sg((k0, j0))) == ICDF(j0, u, Fraction(0)), T.zr(sg((k0, j0))) == ICDF(j0, u, sg((k0, cond.idx(j0)))))
+            threaded = isinstance(rs, RngVal)
+            return [("generator_state", T.eq(rs.state, ST(T.zi(kc))) if threaded else False),
+                    ("cell_drawn", T.implies(T.land(T.ge(j0, 0), T.lt(j0, kc), T.lt(j0, me.nd)), clause))]
+        itp.loop_specs[(GHM + ".draw_sample", 0)] = LoopSpec(inv, havoc)
+
+    def inputs(self, itp, case):
+        cx = itp.cx
+        self.model, self.nd, self.cond, self.dists = make_symbolic_model(cx)
+        self.n = cx.sym("n", "int")
+        cx.assume(T.ge(self.n, 1))
+        k0 = cx.sym("k0", "int")
+        cx.assume(T.land(T.ge(k0, 0), T.lt(k0, self.n)), "arbitrary row k0")
+        if case["rs"] == "seed":
+            self.rs = integer(cx, "seed")
+            cx.assume(T.ge(self.rs.t, 0))
+            s0 = _SEED(self.rs.t)
+        else:
+            s0 = cx.sym("gen_state", "int")
+            self.rs = RngVal(s0, "caller's generator")
+        i = z3.Int("si")
+        ST = self.ST
+        cx.fact(ST(0) == s0, "spec: state before the first dimension = the caller's random_state")
+        cx.fact(z3.ForAll([i], z3.Implies(i >= 0, ST(i + 1) == _NEXT(ST(i), T.zi(self.n))), patterns=[ST(i + 1)]), "spec: every dimension consumes n uniforms of the same generator")
+        return [self.model, Sym(self.n)], {"random_state": self.rs}
+
+    def post(self, itp, case, inp, out):
+        cx = itp.cx
+        if out.outcome != "return":
+            cx.oblige("post.returns", False, "post", f"raised {out.exc}: {out.msg}")
+            return
+        r = out.value
+        ok = isinstance(r, SArr) and r.ndim == 2
+        cx.oblige("post.shape", T.land(T.eq(r.shape[0], self.n), T.eq(r.shape[1], self.nd)) if ok else False, "post", "(n, n_dim) honoured")
+        if not ok:
+            return
+        k0, j0 = cx.sym("k0", "int"), cx.sym("j0", "int")
+        cx.assume(T.land(T.ge(j0, 0), T.lt(j0, self.nd)), "arbitrary variable j0")
+        u = _DRAW(self.ST(j0), k0)
+        cond = self.cond
+        goal = z3.If(cond.is_none(j0), T.zr(r.get((k0, j0))) == ICDF(j0, u, Fraction(0)), T.zr(r.get((k0, j0))) == ICDF(j0, u, r.get((k0, cond.idx(j0)))))
+        cx.oblige("post.rosenblatt_sample", goal, "post", "every cell is drawn from its (conditional) distribution given the same row's declared conditioning value, blocks of one threaded generator")
